@@ -71,8 +71,10 @@ def gen(rng, i, tier):
     uni = rng.choice(['int', 'pool'])
     labs = G.labels(rng, uni, rng.randint(2, 4))
     obj = c02.random_poly(rng, labs) if rng.random() < 0.3 else []
-    return {"obj": G.jraw(obj), "calls": [gen_call(rng, labs) for _ in range(rng.choice([1, 1, 1, 2, 3]))],
-            "touch": rng.choice([None, None, "refresh", "copy"])}
+    calls = [gen_call(rng, labs) for _ in range(rng.choice([1, 1, 1, 2, 3]))]
+    if len(calls) >= 2 and rng.random() < 0.35:
+        calls[-1] = c02.later_unary_form(rng, labs, spin=True)
+    return {"obj": G.jraw(obj), "calls": calls, "touch": rng.choice([None, None, "refresh", "copy"])}
 
 
 def twin_ok(case):
